@@ -6,8 +6,12 @@ from purecheck import PureCheck
 
 ALPHA = (97, 65317, 769)  # narrow, double-width, combining
 ATTS2 = [fmtlib.PLAIN, fmtlib.RED]
-WID = {97: 1, 98: 1, 99: 1, 32: 1, 65317: 2, 26085: 2, 128512: 2, 769: 0, 8203: 0, 3633: 0, 8205: 0, 4448: 0}
+WID = {97: 1, 98: 1, 99: 1, 32: 1, 65317: 2, 26085: 2, 128512: 2, 769: 0, 8203: 0, 3633: 0, 8205: 0, 4448: 0,
+       12288: 2, 12334: 2, 7082: 1, 160: 1}
 ALPHA_X = (97, 3633, 65317, 8205, 128512, 4448)   # zero-width characters that are not canonical combining marks, an emoji
+# characters the usual shortcuts get wrong: spacing combining marks (combining class != 0 yet 1 / 2 columns wide), spaces
+# that str.isprintable() rejects (double-width IDEOGRAPHIC SPACE, NO-BREAK SPACE)
+ALPHA_Y = (97, 7082, 12334, 12288, 160, 65317)
 
 
 def cols(runs):
@@ -41,6 +45,9 @@ class C10(PureCheck):
                 pool.append([rng.choice(runs3) for _ in range(3)])
         # other width classes: Thai vowel sign / ZWJ / Hangul filler (zero width, combining class 0), an emoji
         runsx = [[list(t), list(a)] for t in fmtlib.texts_upto(ALPHA_X, 3, 1) for a in ATTS2]
+        runsy = [[list(t), list(a)] for t in fmtlib.texts_upto(ALPHA_Y, 3, 1) for a in ATTS2]
+        for _ in range(200 if tier == "quick" else 3000):
+            pool.append([rng.choice(runsy) for _ in range(rng.choice([1, 2, 2, 3]))])
         for _ in range(250 if tier == "quick" else 4000):
             pool.append([rng.choice(runsx) for _ in range(rng.choice([1, 2, 2, 3]))])
         # long runs (60..140 characters: marked letters, double-width, plain) next to short ones: ranges around the start,
